@@ -743,40 +743,40 @@ func (self Node) Gets(keys []PathNode, opts *Options) (err error) {
 		return errValue(meta.ErrRead, "", it.Err)
 	}
 	need := len(keys)
+	// every pair is read exactly once and compared with all the requested keys
+	mode := keys[0].Path.Type()
 	for count := 0; it.HasNext() && count < need; {
-		for j, id := range keys {
-			if id.Path.Type() == PathStrKey {
-				exp := id.Path.str()
-				_, s, v, e := it.NextStr(opts.UseNativeSkip)
-				if it.Err != nil {
-					return errValue(meta.ErrRead, "", it.Err)
-				}
-				if exp == s {
-					p := &keys[j]
+		if mode == PathStrKey {
+			_, s, v, e := it.NextStr(opts.UseNativeSkip)
+			if it.Err != nil {
+				return errValue(meta.ErrRead, "", it.Err)
+			}
+			for j := range keys {
+				if keys[j].Path.Type() == PathStrKey && keys[j].Path.str() == s {
 					count += 1
-					p.Node = self.slice(v, e, et)
+					keys[j].Node = self.slice(v, e, et)
 				}
-			} else if id.Path.Type() == PathIntKey {
-				exp := id.Path.int()
-				_, s, v, e := it.NextInt(opts.UseNativeSkip)
-				if it.Err != nil {
-					return errValue(meta.ErrRead, "", it.Err)
-				}
-				if exp == s {
-					p := &keys[j]
+			}
+		} else if mode == PathIntKey {
+			_, s, v, e := it.NextInt(opts.UseNativeSkip)
+			if it.Err != nil {
+				return errValue(meta.ErrRead, "", it.Err)
+			}
+			for j := range keys {
+				if keys[j].Path.Type() == PathIntKey && keys[j].Path.int() == s {
 					count += 1
-					p.Node = self.slice(v, e, et)
+					keys[j].Node = self.slice(v, e, et)
 				}
-			} else {
-				exp := id.Path.bin()
-				_, s, v, e := it.NextBin(opts.UseNativeSkip)
-				if it.Err != nil {
-					return errValue(meta.ErrRead, "", it.Err)
-				}
-				if bytes.Equal(exp, s) {
-					p := &keys[j]
+			}
+		} else {
+			_, s, v, e := it.NextBin(opts.UseNativeSkip)
+			if it.Err != nil {
+				return errValue(meta.ErrRead, "", it.Err)
+			}
+			for j := range keys {
+				if keys[j].Path.Type() == PathBinKey && bytes.Equal(keys[j].Path.bin(), s) {
 					count += 1
-					p.Node = self.slice(v, e, et)
+					keys[j].Node = self.slice(v, e, et)
 				}
 			}
 		}
